@@ -20,7 +20,7 @@ for l in open('/verif/properties.jsonl'):
     if m:
         extra = ("Several people are doing this task independently for the same property; to spread out, focus YOUR change on this part of the implementation "
                  "(or code it directly cooperates with): %s (%s). Consider several candidate spots there and prefer one that is not the most obvious. " % (m['name'], m['where']))
-    if done.get(pid):
+    if done.get(pid) and os.environ.get("MKROUND_LIST_DONE"):
         extra += ("The following changes have ALREADY been made by others for this property - do something different (a different function or a different kind of mistake): "
                   + "; ".join("(%d) %s" % (i + 1, c) for i, c in enumerate(done[pid])) + ".")
     wt = "/tmp/mut/%s%s" % (pid, suffix)
